@@ -27,7 +27,7 @@ def budget(tier):
 def strategy_(draw):
     rel = draw(st.sampled_from(['log2cpm', 'scale', 'permute_genes', 'permute_genes', 'extra_genes', 'negative']))
     factor = 1.0 if rel in ('log2cpm', 'scale') else None
-    dt = ['float64', 'float32', 'int32', 'int64', 'uint16'] if rel != 'extra_genes' else ['float64', 'float32']
+    dt = ['float64', 'float32', 'int32', 'int64', 'uint16', 'uint8', 'uint8'] if rel != 'extra_genes' else ['float64', 'float32']
     spec = copy.deepcopy(draw(gen.map_cases(factor=factor, max_cells=14 if rel in ('extra_genes', 'negative') else 8, dtypes=dt)))
     n = len(spec['query']['cells'])
     g = len(spec['query']['genes'])
